@@ -576,10 +576,13 @@ def fresh(t, name, namer, objfactory=None):
     if k == "set":
         z = z3.Const(namer(name), z3.ArraySort(sort_of(t.args[0]), BoolS))
         return VSet(z, t.args[0]), cons
-    if k == "dict":
+    if k in ("dict", "defaultdict"):
         p = z3.Const(namer(name + "_p"), z3.ArraySort(sort_of(t.args[0]), BoolS))
         v = z3.Const(namer(name + "_v"), z3.ArraySort(sort_of(t.args[0]), sort_of(t.args[1])))
-        return VMap(p, v, t.args[0], t.args[1]), cons
+        m = VMap(p, v, t.args[0], t.args[1])
+        if k == "defaultdict":
+            m.default_empty = True     # collections.defaultdict(deque/list): see Interp.getitem
+        return m, cons
     if k == "opt":
         inner, c2 = fresh(t.args[0], name, namer, objfactory)
         return VOpt(z3.Bool(namer(name + "_isnone")), inner), c2
